@@ -220,3 +220,17 @@ CLAIMED.update({
          "note": STD_NOTE + ORDER_NOTE + " The flag domain is finite and enumerated completely; the reference model (engine/props/C02.py, m_* functions) is part of the trusted base.",
          "technique": "static analysis: exhaustive abstract evaluation of extracted CFGs over the finite flag domain against a reference model (K6/K5), bit-level who-may-write (K2), contradiction rule on flag-word tests (K4)"},
 })
+CLAIMED.update({
+ "C03": {"level": "other",
+         "text": "Loop-control decisions evaluated from the extracted CFGs on every combination of their small-domain inputs and compared with the documented rules: "
+                 "event_base_loop from loop head to the backend wait (gotterm/break leave; exit 1 exactly when !NO_EXIT_ON_EMPTY, no events, nothing active; later queue promoted "
+                 "before every wait; timeout_next exactly when nothing is active and !NONBLOCK, else the wait is cleared; event_continue and the deferred quota restart) and from "
+                 "the wait to the next iteration (-1 on backend failure; update_time_cache, timeout_process, callbacks iff active; done exactly per EVLOOP_ONCE/NONBLOCK): 240+ "
+                 "cases; event_process_active_single_queue after each callback (break -> -1, callback quota, time quota, continue, else next; only non-internal callbacks counted; "
+                 "dequeued before invocation); event_process_active over 3 queues x 8 emptiness patterns x limit_after_prio x 27 result scripts (ascending scan, quota only from "
+                 "the limit priority, stop after the first real work or -1, running priority reset); the deferred quota (later branch exactly above 32, only successes counted) and "
+                 "the drain of the later queue; loopbreak/loopcontinue set their flag and wake a foreign-thread loop, loopexit is a once-timer setting gotterm, who writes the flags; "
+                 "activation above the running priority always sets event_continue. Declined: callback order over whole histories, starvation bounds in time.",
+         "note": STD_NOTE + ORDER_NOTE,
+         "technique": "static analysis: exhaustive evaluation of extracted control regions over their finite input domains against the documented decision tables (K6), must-pass-through (K3), who-may-write (K2)"},
+})
